@@ -107,6 +107,10 @@ func (p *Prog) ownedBy(fn *ssa.Function, allowed func(name string) bool) (string
 			if TopLevel(e.Caller.Func) == top {
 				continue // self recursion does not change who owns the code
 			}
+			// the thunk of a method expression: accounted for by the functions that hand the method on (below)
+			if cf := e.Caller.Func; cf.Synthetic != "" && strings.HasSuffix(cf.Name(), "$thunk") {
+				continue
+			}
 			// a promoted-method wrapper nobody calls (made for the method set of the embedding type) is no caller
 			if cf := e.Caller.Func; cf.Synthetic != "" && !strings.HasSuffix(cf.Name(), "$bound") {
 				if cn := p.CG.Nodes[cf]; cn == nil || len(cn.In) == 0 {
@@ -122,12 +126,52 @@ func (p *Prog) ownedBy(fn *ssa.Function, allowed func(name string) bool) (string
 				owner = o
 			}
 		}
+		// a method handed on as a function value (`s.eachRef((*Subscription).countDownSent)`): owned by where the
+		// value is handed on
+		for _, u := range p.funcValueUsers(top) {
+			if TopLevel(u) == top {
+				continue
+			}
+			cnt++
+			o, ok := rec(u, depth+1)
+			if !ok {
+				return "", false
+			}
+			if o != "" {
+				owner = o
+			}
+		}
 		if cnt == 0 || owner == "" {
 			return "", false
 		}
 		return owner, true
 	}
 	return rec(fn, 0)
+}
+
+// funcValueUsers: the repository functions that hand fn on as a function value (an argument of a call).
+func (p *Prog) funcValueUsers(fn *ssa.Function) []*ssa.Function {
+	if p.fvUsers == nil {
+		p.fvUsers = map[*ssa.Function][]*ssa.Function{}
+		for _, g := range p.Repo {
+			for _, call := range callsIn(g) {
+				for _, a := range call.Common().Args {
+					f, ok := stripConv(a).(*ssa.Function)
+					if ok && f.Synthetic != "" {
+						if m := boundMethod(f); m != nil {
+							if mf := p.SSA.FuncValue(m); mf != nil {
+								f = mf
+							}
+						}
+					}
+					if ok && p.isRepoFn(f) {
+						p.fvUsers[f] = append(p.fvUsers[f], g)
+					}
+				}
+			}
+		}
+	}
+	return p.fvUsers[fn]
 }
 
 // whoRule: the frozen who-may-write table. Each entry names the functions
